@@ -734,9 +734,10 @@ func c12DateDistance(p *load.Prog, r *oblig.Run) {
 // cover: two ranges over the same days then compare differently, self-comparison is no longer Equal, swapping the
 // operands no longer gives the converse.
 func c06DecisionInputs(p *load.Prog, r *oblig.Run) {
-	r.Rule("R06.i", "Compare and compareDatesForLetter take no decision on constraint- or granularity-aware predicates of the operands", 2)
+	r.Rule("R06.i", "Compare, compareDatesForLetter and the range constructors take no decision on constraint-, component- or midpoint-based predicates of the boundaries; the end-of-range flag is written only by NewDateRange", 4)
 	forbidden := []string{"Date.Is(", "Date.Equals(", "DateRange.Equals(", "Date.IsExact(", "DateRange.IsExact(", "Date.Years(", "DateRange.Years(",
-		"Date.IsBefore(", "Date.IsAfter(", "DateRange.IsBefore(", "DateRange.IsAfter(", "DateNode.", ".Constraint", "Date.IsPhrase(", "DateRange.IsPhrase("}
+		"Date.IsBefore(", "Date.IsAfter(", "DateRange.IsBefore(", "DateRange.IsAfter(", "DateNode.", ".Constraint", "Date.IsPhrase(", "DateRange.IsPhrase(",
+		".Day", ".Month", ".Year"}
 	hit := func(e string) string {
 		for _, f := range forbidden {
 			if strings.Contains(e, f) {
@@ -745,8 +746,55 @@ func c06DecisionInputs(p *load.Prog, r *oblig.Run) {
 		}
 		return ""
 	}
+	// the end-of-range flag of a boundary: written by NewDateRange only (and set in the literals of the parser)
+	ow := r.Add("R06.i", "writers of Date.IsEndOfRange", "-", "stores to the end-of-range flag after construction")
+	var writers []string
+	for _, fn := range p.Repo {
+		if pkgPathOf(fn) != load.PkgRoot {
+			continue
+		}
+		for _, b := range fn.Blocks {
+			for _, ins := range b.Instrs {
+				st, ok := ins.(*ssa.Store)
+				if !ok {
+					continue
+				}
+				fa, ok := st.Addr.(*ssa.FieldAddr)
+				if !ok || su.FieldName(fa) != "IsEndOfRange" {
+					continue
+				}
+				if owner := su.FieldOwner(fa); owner == nil || owner.Obj().Name() != "Date" {
+					continue
+				}
+				// a composite literal being filled (fresh local that is not a parameter copy)
+				if al, isAl := fa.X.(*ssa.Alloc); isAl {
+					fromParam := false
+					for _, ref := range *al.Referrers() {
+						if s2, ok := ref.(*ssa.Store); ok && s2.Addr == ssa.Value(al) {
+							if _, isP := s2.Val.(*ssa.Parameter); isP {
+								fromParam = true
+							} else if _, isK := s2.Val.(*ssa.Const); !isK {
+								fromParam = true // a copy of some existing date
+							}
+						}
+					}
+					if !fromParam {
+						continue
+					}
+				}
+				if fn.Name() != "NewDateRange" {
+					writers = append(writers, load.FuncName(fn)+" at "+p.Pos(st.Pos()))
+				}
+			}
+		}
+	}
+	if len(writers) > 0 {
+		ow.Fail("the end-of-range flag of an existing date is rewritten outside NewDateRange (" + strings.Join(writers, "; ") + "): a boundary whose flag is cleared or set afterwards stands for the other end of its month/year - the day interval the comparison works on is no longer the one the range was built with")
+	} else {
+		ow.OK("only NewDateRange assigns the flag of an existing date")
+	}
 	cmpLetter := p.Func(load.PkgRoot, "compareDatesForLetter")
-	for _, fn := range []*ssa.Function{p.Method(load.PkgRoot, "DateRange", "Compare"), cmpLetter} {
+	for _, fn := range []*ssa.Function{p.Method(load.PkgRoot, "DateRange", "Compare"), cmpLetter, p.Func(load.PkgRoot, "NewDateRange"), p.Func(load.PkgRoot, "NewDateRangeWithString")} {
 		if fn == nil || len(fn.Blocks) == 0 {
 			r.Add("R06.i", "anchor", "-", "anchor").Unknown("DateRange.Compare / compareDatesForLetter not found")
 			continue
@@ -1011,4 +1059,62 @@ func polyString(a poly) string {
 		return "0"
 	}
 	return strings.Join(parts, " + ")
+}
+
+// c04PatternFirst (R04.x): the documented date grammar *is* the pattern. parseDateParts and
+// NewDateRangeWithString decide nothing about a text before they have matched it against the pattern: a call of
+// FindStringSubmatch dominates every return (an early exit for the empty text excepted). A shortcut in front of the
+// pattern - a fast path for plain years that accepts what strconv accepts, a length limit computed for the wrong
+// longest sentence - makes texts valid or invalid that the grammar does not.
+func c04PatternFirst(p *load.Prog, r *oblig.Run) {
+	r.Rule("R04.x", "the date parsers return only after the text was matched against the date pattern (no shortcut in front of the grammar)", 2)
+	for _, name := range []string{"parseDateParts", "NewDateRangeWithString"} {
+		fn := p.Func(load.PkgRoot, name)
+		o := r.Add("R04.x", "returns of "+name, "-", "pattern match before every return")
+		if fn == nil || len(fn.Blocks) == 0 {
+			o.Unknown(name + " not found")
+			continue
+		}
+		o.Pos = p.Pos(fn.Pos())
+		var matches []ssa.Instruction
+		for _, c := range su.Calls(fn) {
+			if cal := c.Common().StaticCallee(); cal != nil && cal.Pkg != nil && cal.Pkg.Pkg.Path() == "regexp" && strings.HasPrefix(cal.Name(), "Find") || cal != nil && cal.Pkg != nil && cal.Pkg.Pkg.Path() == "regexp" && strings.HasPrefix(cal.Name(), "Match") {
+				matches = append(matches, c)
+			}
+		}
+		if len(matches) == 0 {
+			o.Unknown(name + " does not match its text against a pattern itself")
+			continue
+		}
+		env := &descEnv{p: p, params: map[*ssa.Parameter]string{}, noInline: true}
+		bad := ""
+		n := 0
+		for _, b := range fn.Blocks {
+			ret, ok := b.Instrs[len(b.Instrs)-1].(*ssa.Return)
+			if !ok || b == fn.Recover {
+				continue
+			}
+			n++
+			dom := false
+			for _, m := range matches {
+				if su.Dominates(m, ret) {
+					dom = true
+				}
+			}
+			if dom {
+				continue
+			}
+			empty := env.holdsAny(b, func(f cfact) bool {
+				return f.val && (f.atom == "\"\"==p0" || f.atom == "0==len(p0)" || strings.HasPrefix(f.atom, "\"\"==CleanSpace(p0)"))
+			})
+			if !empty {
+				bad = "the return at " + p.Pos(ret.Pos()) + " is reached without the text having been matched against the pattern"
+			}
+		}
+		if bad != "" {
+			o.Fail(bad + ": what this path accepts or rejects is decided by something other than the documented grammar (strconv accepts signs and the pattern does not; a length limit cuts off long documented sentences)")
+		} else {
+			o.OK(fmt.Sprintf("%d return(s), each after the pattern match", n))
+		}
+	}
 }
